@@ -224,7 +224,8 @@ class DnsRecordDnskey(ParsableBase, Serializable):
     @staticmethod
     def _compose_public_key_ecdsa(key_composer, key):
         key_params = key.params
-        key_size = key.key_size // 8
+        # the coordinates are as wide as the field of the curve, whatever their leading octets are
+        key_size = key_params.named_group.value.size // 8
         key_composer.compose_mpint(key_params.point_x, key_size)
         key_composer.compose_mpint(key_params.point_y, key_size)
 
